@@ -40,11 +40,11 @@ def regen(ck):
     rc, out = vcheck.sh([os.path.join(ROOT, "translate", "gen_decode_consts")], timeout=60)
     ck.checker_cmds.append("translate/gen_decode_consts")
     ck.obligation("translator gen_decode_consts: every constant of the decoders found exactly once in the source", rc == 0, out[-1500:])
-    if not os.path.exists(os.path.join(vcheck.COQ, "gen", "DecodeConsts.json")):
+    if not os.path.exists(os.path.join(vcheck.BUILD, "gen", "DecodeConsts.json")):
         return None
     if rc != 0 and "source_changed_shape" in open(os.path.join(vcheck.COQ, "gen", "DecodeConsts.v")).read():
         return None
-    info = json.load(open(os.path.join(vcheck.COQ, "gen", "DecodeConsts.json")))
+    info = json.load(open(os.path.join(vcheck.BUILD, "gen", "DecodeConsts.json")))
     c = info["consts"]
     bad = ["%s is %r, the model transcribes %r" % (k, c.get(k), v) for k, v in EXPECT_RE.items() if c.get(k) != v]
     ck.obligation("sanitising patterns in the source are the ones the model transcribes", not bad, "; ".join(bad))
